@@ -127,6 +127,33 @@ func genC20(r *rand.Rand, t *Trace, thorough bool) {
 				v[i] = rndF32(r)
 			}
 		}
+		if ty == 1 {
+			// the float16 clause: components spread over every binade of the half-precision normal
+			// range 2^-14 .. 65504 (log-uniform), binade boundaries, and exact rounding ties
+			for i := range v {
+				if r.Intn(3) == 0 {
+					continue
+				}
+				e := -14 + r.Intn(30)
+				var x float64
+				switch r.Intn(4) {
+				case 0:
+					x = math.Ldexp(1, e)
+				case 1:
+					x = math.Ldexp(1+float64(2*r.Intn(1024)+1)/2048, e) // halfway between two float16 values
+				default:
+					x = math.Ldexp(1+r.Float64(), e)
+				}
+				if x > 65504 {
+					x = 65504
+				}
+				if r.Intn(2) == 0 {
+					x = -x
+				}
+				v[i] = float32(x)
+			}
+			t.Stat("quant.half_normal_range_sweep")
+		}
 		if ty == 2 && r.Intn(3) != 0 { // inside the trained range (the int8 clause)
 			for i := range v {
 				if float32(math.Abs(float64(v[i]))) > absMax {
